@@ -76,6 +76,8 @@ try:
     for f in (which + "_demo.c", which + "_run.sh", which + ".md"):
         if os.path.exists(os.path.join(src, f)):
             shutil.copy(os.path.join(src, f), os.path.join(dst, f.replace(which + "_", "").replace(which + ".md", "notes.md")))
+            if f.endswith("_run.sh"):
+                p = os.path.join(dst, "run.sh"); t = open(p).read().replace(which + "_demo.c", "demo.c").replace(which + "_run.sh", "run.sh"); open(p, "w").write(t)
     for f in os.listdir(src):
         if f.startswith(which + "_") and f not in (which + "_demo.c", which + "_run.sh") and os.path.getsize(os.path.join(src, f)) < 200000 and not os.access(os.path.join(src, f), os.X_OK):
             shutil.copy(os.path.join(src, f), os.path.join(dst, f))
